@@ -62,4 +62,29 @@ theorem not_waiting_loses_output : ∃ s, Reach badCfg s ∧ s.mainReturned = tr
   have r9 := Reach.step r8 (Step.mainReturn _ rfl rfl rfl rfl (by intro h; cases h))
   exact ⟨_, r9, rfl, by decide⟩
 
+def goodCfg : Cfg Nat := { badCfg with waits := true }
+
+/-- Non-vacuity: with the wait, a reachable state in which main has returned (and the writer has
+    written the message). -/
+example : ∃ s, Reach goodCfg s ∧ s.mainReturned = true ∧ s.handled 0 = goodCfg.out := by
+  have r0 : Reach goodCfg (init Nat) := .init
+  have r1 := Reach.step r0 (Step.rClose _ rfl rfl rfl)
+  have r2 := Reach.step r1 (Step.fSeeClosed _ rfl rfl ⟨rfl, rfl⟩)
+  have r3 := Reach.step r2 (Step.fSend _ rfl (by decide) rfl rfl rfl)
+  have r4 := Reach.step r3 (Step.dSendBuf _ 0 7 rfl rfl (by decide) rfl rfl (by decide) rfl)
+  have r5 := Reach.step r4 (Step.dNext _ rfl rfl)
+  have r6 := Reach.step r5 (Step.fClose _ rfl rfl rfl rfl)
+  have r7 := Reach.step r6 (Step.dSeeClosed _ rfl rfl rfl rfl)
+  have r8 := Reach.step r7 (Step.mainClose _ rfl rfl (by decide) rfl rfl rfl)
+  have r9 := Reach.step r8 (Step.wRecv _ 0 7 [] rfl (by decide) rfl rfl rfl rfl)
+  have r10 := Reach.step r9 (Step.wFinish _ 0 7 rfl (by decide) rfl rfl)
+  have r11 := Reach.step r10 (Step.wSeeClosed _ 0 rfl (by decide) rfl rfl rfl rfl rfl)
+  have r12 := Reach.step r11 (Step.mainReturn _ rfl rfl rfl rfl (by
+    intro _ i hi _
+    have : i = 0 := by
+      have : i < 1 := hi
+      omega
+    subst this; rfl))
+  exact ⟨_, r12, rfl, rfl⟩
+
 end Ntrip.C11
